@@ -855,14 +855,27 @@ class Assembler:
                     continue
                 k += 1
             for ctor_full in blk.eta:
-                ctor, _, econtract = ctor_full.partition(' ')
-                econtract = econtract.strip()
+                # `//@ eta Path::f`                       plain eta expansion
+                # `//@ eta Path::f -> (r: T) ensures ..`   with a full closure contract written in the unit
+                # `//@ eta Path::Ctor -> Type`             with the contract `ensures eta_r == Path::Ctor(eta_x)` (the caller's proof
+                #                                          depends on the value, e.g. Option::map(Ctor)); Type is the constructed type
+                ctor, _, rest_ = ctor_full.partition(' ')
+                rest_ = rest_.strip()
+                econtract, ctor_ty = '', ''
+                if rest_.startswith('->') and rest_[2:].strip().startswith('('):
+                    econtract = rest_
+                elif rest_.startswith('->'):
+                    ctor_ty = rest_[2:].strip()
+                elif rest_:
+                    econtract = rest_
                 found = 0
                 for mo in re.finditer(r'\(\s*(%s)\s*\)' % re.escape(ctor), text[st[a].end:st[b].start]):
                     s0 = st[a].end + mo.start(1)
                     e0 = st[a].end + mo.end(1)
                     if econtract:
                         edits.append((s0, e0, '|eta_x| %s { %s(eta_x) }' % (econtract, ctor)))
+                    elif ctor_ty:
+                        edits.append((s0, e0, '|eta_x| -> (eta_r: %s) ensures eta_r == %s(eta_x), { %s(eta_x) }' % (ctor_ty, ctor, ctor)))
                     else:
                         edits.append((s0, e0, '|eta_x| %s(eta_x)' % ctor))
                     self.rewrites.append('R9 %s:%d constructor %s passed as a function value eta-expanded' % (blk.relpath, src.line_of(s0), ctor))
